@@ -3,6 +3,7 @@
    (that the body written by save parses back to the document's changes, [body] below) is a
    parameter of the model and is checked differentially on the implementation, not proved. *)
 From AM Require Import Base.Prelude Base.Leb128 Gen.Consts Store.Chunk Store.ChunkProofs.
+From AM Require Import Store.ChangeChunk Store.DocChunk Store.DocChunkProofs Store.DocCols Exec.DocExec Store.DocBodyProofs.
 
 (* the output of save is one document chunk: loading it, strictly or with partial loads allowed,
    is exactly the body's changes applied to the empty document, whatever it leaves in the queue *)
@@ -34,3 +35,73 @@ Section Example.
     load H N bd inf (list N) [] ap (fun _ => false) Strict (encode_chunk H CHUNK_DOCUMENT [7; 8]) = Ok [7; 8].
   Proof. vm_compute. reflexivity. Qed.
 End Example.
+
+(* ---------------------------------------------------------------- the document chunk body
+   (Store/DocChunk.v: Document::parse / Document::new; Store/DocCols.v: the change-metadata columns).
+   Proofs in Store/DocChunkProofs.v and Store/DocBodyProofs.v. *)
+
+(* the reader inverts the writer on every well-formed body, whatever DEFLATE is *)
+Theorem C11_doc_body_roundtrip :
+  forall (inflate : bytes -> option bytes) (d : doc_body),
+  wf_doc d -> parse_doc inflate (write_doc d) = Ok d.
+Proof. exact doc_body_roundtrip. Qed.
+
+Example C11_doc_body_roundtrip_nonvacuous : wf_doc ex_doc /\ parse_doc no_inflate (write_doc ex_doc) = Ok ex_doc.
+Proof. split; [exact ex_doc_wf|exact ex_doc_roundtrip]. Qed.
+
+(* without compressed columns the reader accepts only the writer's output: what it parsed re-encodes
+   to the very bytes it read (so a re-saved, unchanged body keeps its checksum) and is well-formed *)
+Theorem C11_doc_body_canonical :
+  forall (b : bytes) (d : doc_body),
+  wf_bytes b -> (lenN b < pow64)%N -> parse_doc no_inflate b = Ok d -> write_doc d = b /\ wf_doc d.
+Proof. exact doc_body_canonical. Qed.
+
+(* ... but the head indexes it parsed are never checked: two different bodies (two checksums), one
+   document.  This matters for C10 / C14 only as "the bytes of a document chunk are not a function of
+   the document": a corrupted head index with a recomputed checksum is accepted. *)
+Theorem C11_doc_head_index_unchecked_refuted :
+  exists b1 b2 d1 d2, b1 <> b2
+    /\ parse_doc no_inflate b1 = Ok d1 /\ parse_doc no_inflate b2 = Ok d2
+    /\ d_actors d1 = d_actors d2 /\ d_heads d1 = d_heads d2 /\ d_ccols d1 = d_ccols d2
+    /\ d_ocols d1 = d_ocols d2 /\ d_cdata d1 = d_cdata d2 /\ d_odata d1 = d_odata d2
+    /\ d_hidx d1 = [0; 1]%N /\ d_hidx d2 = [77; 18446744073709551615]%N.
+Proof. exact parse_doc_head_index_unchecked. Qed.
+
+(* no chunk body and no DEFLATE make Document::parse panic *)
+Theorem C11_parse_doc_no_panic :
+  forall (inflate : bytes -> option bytes) (b : bytes), parse_doc inflate b <> Panic.
+Proof. exact parse_doc_no_panic. Qed.
+
+(* a declared actor count above the number of remaining bytes is rejected by the count test *)
+Theorem C11_parse_doc_count_bound :
+  forall (inflate : bytes -> option bytes) (n : N) (rest : bytes),
+  (n < pow64)%N -> (lenN rest < n)%N -> parse_doc inflate (uleb_enc n ++ rest) = Err.
+Proof. exact parse_doc_count_bound. Qed.
+
+(* the decoder of the change-metadata columns (ChangeGraphCols::load) is NOT panic free: its
+   streaming hexane decoders unwrap, and it indexes max_ops with untrusted dependency indexes
+   (known findings of C15) *)
+Theorem C11_decode_change_cols_panics_refuted :
+  exists cols ms, decode_change_cols 1 cols = Panic
+    /\ decode_change_cols 1 (encode_change_cols ms) = Ok ms /\ length ms = 1%nat.
+Proof. exact decode_change_cols_dep_index_panics_refuted. Qed.
+
+(* C11_load_saved_document_partial with the document body instantiated: [body CHUNK_DOCUMENT] is
+   parse_doc followed by decode_change_cols.  PARTIAL: the reconstruction of the changes from the op
+   columns and that metadata ([recon]: OpSet::load + ChangeCollector) stays a parameter, and
+   [decode_change_cols (encode_change_cols ms) = Ok ms] is established by computation on examples
+   (Store/DocBodyProofs.v ex_metas_roundtrip) and by the correspondence family, not yet by a theorem. *)
+Theorem C11_load_saved_document_body_partial :
+  forall Hsh : bytes -> bytes, (forall x : bytes, 4 <= length (Hsh x)) ->
+  forall (C : Type) (inflate : bytes -> option bytes)
+    (recon : doc_body -> list chmeta -> option (list C)) (other : N -> bytes -> option (list C))
+    (D : Type) (empty : D) (apply : D -> list C -> res D) (queue_empty : D -> bool)
+    (d : doc_body) (ms : list chmeta) (cs : list C) (m : mode),
+  wf_doc d -> (lenN (write_doc d) < pow64)%N -> doc_metas d = Ok ms -> recon d ms = Some cs ->
+  load Hsh C (doc_chunk_body inflate recon other) inflate D empty apply queue_empty m
+    (encode_chunk Hsh CHUNK_DOCUMENT (write_doc d)) = apply empty cs.
+Proof. exact load_saved_doc_body. Qed.
+
+Example C11_change_cols_roundtrip_example :
+  wf_metasb 3 ex_metas = true /\ decode_change_cols 3 (encode_change_cols ex_metas) = Ok ex_metas.
+Proof. split; [exact ex_metas_wf|exact ex_metas_roundtrip]. Qed.
